@@ -1,7 +1,7 @@
 CONSTANTS
   Dev = {}
   Alphabet <- AlphaEsc
-  MaxLen = 7
+  MaxLen = 6
   DepthProbe = {0, 256}
 INIT Init
 NEXT Next
